@@ -372,3 +372,19 @@ def sched_check(ctx, oracle, profiles, nontrivial, witnesses=(), rule=''):
             ctx.broken('known finding %s no longer reproduces: model (faithful to the finding) and code have diverged' % w,
                        'the directed witness in corpus/sched did not trigger', {'source': 'correspondence'})
     return results
+
+
+def sched_replay(ctx, obj, oracle):
+    '''./check Cxx --replay F : re-execute the recorded case against /repo and
+    against the model; report what the oracle and the correspondence say.'''
+    case = obj.get('case')
+    if not case:
+        print('replay file carries no scheduler case (%s)' % obj.get('broken', obj.get('kind')))
+        return
+    c = {'seed': case.get('seed'), 'desc': case['desc'], 'events': case['events'],
+         'targets': case.get('targets', ['T1', 'T2'])}
+    results, nmis = run_corr(ctx, [c], oracle)
+    for r in results:
+        print('replayed %d events; correspondence mismatch: %s' % (len(r['events']), r['mismatch']))
+    if nmis and ctx.nviol == 0:
+        report_mismatches(ctx, results, 'scheduler/farm (replay)')
